@@ -141,8 +141,9 @@ Definition iteration (p : params) (s : st) (a : answer T) : st * outcome :=
       | Some x =>
         match a with
         | Raised =>
-          (* the interval taken from the queue was not subdivided: the recalculation flag is raised so that the queue is rebuilt *)
-          (mkSt (order s2) (queue s2) (sM s2) (sZ s2) (best s2) true (iters s2) (mind s2) (ntr s2) (nextuid s2) (firstflag s2) (S (calls s2)) (seen s2),
+          (* the interval taken from the queue was not subdivided: the recalculation flag is raised so that the queue is rebuilt,
+             and the accuracy estimate goes back to what it was before the selection *)
+          (mkSt (order s2) (queue s2) (sM s2) (sZ s2) (best s2) true (iters s2) (mind s1) (ntr s2) (nextuid s2) (firstflag s2) (S (calls s2)) (seen s2),
            ObjectiveRaised x)
         | Value z =>
           let new0 := mkItem (nextuid s2) x z 0%Z (of_Z o (-1)%Z) (of_Z o (-1)%Z) in
